@@ -26,6 +26,12 @@ def theorem_table():
     rows = ["| property | theorems in `Props/` (+ generated tie lemmas) | non-vacuity examples | model / lemma / driver lines | last evidence: cases, distinct non-trivial, model-vs-impl comparisons |", "|---|---|---|---|---|"]
     for p in sorted(glob.glob(os.path.join(V, "lean", "SB3Verif", "Props", "C*.lean"))):
         pid = os.path.basename(p)[:-5]
+        if not re.fullmatch(r"C\d\d", pid):
+            # composition file (Props/CxxCyy.lean): audited through its re-exports in Props/Cxx.lean (§9.8)
+            src = open(p).read()
+            nth = len(re.findall(r"^theorem\s", src, re.M)); nex = len(re.findall(r"^example\b", src, re.M))
+            rows.append(f"| {pid} (composition, audited via {pid[:3]}) | {nth} theorems | {nex} | {sum(1 for _ in open(p))} lines | - |")
+            continue
         ev = os.path.join(V, "evidence", f"{pid}.json")
         e = json.load(open(ev))["coverage"] if os.path.exists(ev) else {}
         mods = e.get("lean_modules", [])
